@@ -931,23 +931,24 @@ theorem headerValues_counterexample : ¬ headerValues_full := by
   revert this
   decide
 
-/-! ## loops that choose one entry of a map: `VirtualOS.findMount` -/
+/-! ## loops that choose one entry of a map: `VirtualOS.findMount`
+
+The loop was repaired in /repo ("fix: choose the longest mount point in findMount by the length of
+its key"; finding C05-findmount-target-length): it compares the length of the visited key with the
+length of the KEY of its candidate.  The theorems below therefore hold for EVERY mount table — no
+hypothesis on the `Target` fields is left; the loop as it was is kept as `preFixFindMount` with the
+checked statement `C05_fixed_findmount_target_length`. -/
 
 /-- the keys of the mount table (a Go map) are pairwise distinct -/
 def MountKeysDistinct (vis : List MountEnt) : Prop := vis.Pairwise (fun a b => a.key ≠ b.key)
 
-/-- the mounts of a table, pairwise: compatible for the choosing loop -/
-theorem mounts_compat (path : List Nat) {vis : List MountEnt} (hd : MountKeysDistinct vis)
-    (ht : targetsAreKeys vis = true) :
+/-- the mounts of a table, pairwise: compatible for the choosing loop (whatever their `Target`s) -/
+theorem mounts_compat (path : List Nat) {vis : List MountEnt} (hd : MountKeysDistinct vis) :
     vis.Pairwise (SelCompat (fun e : MountEnt => e.key == path) (fun e => mountMatches path e.key)
-      (fun e => e.key.length) (fun e => e.target.length)) := by
-  have ht' : ∀ e ∈ vis, e.target = e.key := by
-    intro e he
-    have := List.all_eq_true.1 ht e he
-    simpa using this
-  refine List.Pairwise.imp_of_mem ?_ hd
-  intro a b ha hb hab
-  refine ⟨by show a.key.length = a.target.length; rw [ht' a ha], by show b.key.length = b.target.length; rw [ht' b hb], ?_, ?_⟩
+      (fun e => e.key.length) (fun e => e.key.length)) := by
+  refine hd.imp ?_
+  intro a b hab
+  refine ⟨rfl, rfl, ?_, ?_⟩
   · intro ⟨h1, h2⟩
     simp only [beq_iff_eq] at h1 h2
     exact hab (h1.trans h2.symm)
@@ -958,14 +959,25 @@ theorem mounts_compat (path : List Nat) {vis : List MountEnt} (hd : MountKeysDis
 /-- **`VirtualOS.findMount`** (every file operation of a script under a virtual OS:
     `os.read_file`, `os.write_file`, `os.stat`, `os.remove`, `os.rename`, `open`, …): for EVERY path
     string, EVERY mount table (any number of mounts, nested to any depth, keys pairwise distinct as
-    the keys of one Go map are, each mount registered under its own `Target`) and EVERY two visiting
-    orders of the `mounts` map, the same mount serves the access and is handed the same relative
-    path. -/
+    the keys of one Go map are; the `Target` fields ARBITRARY — equal to the key, empty, spelled
+    with a trailing slash, anything) and EVERY two visiting orders of the `mounts` map, the same
+    mount serves the access and is handed the same relative path.  (Before the repair this needed
+    `targetsAreKeys`; outside it the statement was false: `C05_fixed_findmount_target_length`.) -/
 theorem findMount_perm_invariant (path : List Nat) {vis₁ vis₂ : List MountEnt} (h : vis₁.Perm vis₂)
-    (hd : MountKeysDistinct vis₁) (ht : targetsAreKeys vis₁ = true) :
+    (hd : MountKeysDistinct vis₁) :
     findMount path vis₁ = findMount path vis₂ := by
   unfold findMount
-  rw [selectLoop_perm _ _ _ _ h (mounts_compat path hd ht)]
+  rw [selectLoop_perm _ _ _ _ h (mounts_compat path hd)]
+
+/-- the full statement (no hypothesis on `Target`) … -/
+def findMount_full : Prop :=
+  ∀ (path : List Nat) (vis₁ vis₂ : List MountEnt), vis₁.Perm vis₂ → MountKeysDistinct vis₁ →
+    findMount path vis₁ = findMount path vis₂
+
+/-- … holds since the repair (it was refuted before: `findMount_counterexample_target` of the
+    earlier sessions is now `C05_fixed_findmount_target_length`) -/
+theorem findMount_full_holds : findMount_full :=
+  fun path _ _ h hd => findMount_perm_invariant path h hd
 
 /-- the general form (any choosing loop of this shape over any map): for all entries that are
     pairwise `SelCompat` — at most one ends the loop, qualifying entries have pairwise different
@@ -978,20 +990,17 @@ theorem select_perm_invariant (exact ok : α → Bool) (lenNew lenCur : α → N
 /-- **what is chosen** (so the invariance is not vacuous — this is the mount the documentation
     promises): when no mount point IS the path, the mount that serves it is one whose mount point
     is a component-wise string prefix of the path and NO qualifying mount point of the table is
-    longer; and when no mount point qualifies nothing is found.  For every table and visiting order. -/
-theorem findMount_longest (path : List Nat) (vis : List MountEnt) (ht : targetsAreKeys vis = true)
+    longer; it is handed the path with its own `Target` trimmed off the front; and when no mount
+    point qualifies nothing is found.  For every table (any `Target`s) and visiting order. -/
+theorem findMount_longest (path : List Nat) (vis : List MountEnt)
     (hne : ∀ e ∈ vis, e.key ≠ path) :
     (∀ id rel, findMount path vis = some (id, rel) →
-      ∃ m ∈ vis, m.id = id ∧ rel = relOf path m.key ∧ mountMatches path m.key = true ∧
+      ∃ m ∈ vis, m.id = id ∧ rel = relOf path m.target ∧ mountMatches path m.key = true ∧
         ∀ k ∈ vis, mountMatches path k.key = true → k.key.length ≤ m.key.length) ∧
     (findMount path vis = none ↔ ∀ k ∈ vis, mountMatches path k.key = false) := by
-  have ht' : ∀ e ∈ vis, e.target = e.key := by
-    intro e he
-    have := List.all_eq_true.1 ht e he
-    simpa using this
   obtain ⟨b', h1, h2, _, h4⟩ := selectLoop_cand (fun e : MountEnt => e.key == path)
-    (fun e => mountMatches path e.key) (fun e => e.key.length) (fun e => e.target.length) vis none
-    (by intro x hx; simpa using hne x hx) (by intro x hx; show x.key.length = x.target.length; rw [ht' x hx])
+    (fun e => mountMatches path e.key) (fun e => e.key.length) (fun e => e.key.length) vis none
+    (by intro x hx; simpa using hne x hx) (by intro x _; rfl)
   unfold findMount selectLoop
   rw [h1]
   cases b' with
@@ -1008,11 +1017,10 @@ theorem findMount_longest (path : List Nat) (vis : List MountEnt) (ht : targetsA
     refine ⟨?_, ?_⟩
     · intro id rel hres
       simp only [Option.some.injEq, Prod.mk.injEq] at hres
-      refine ⟨m, hm.1, hres.1, by rw [← hres.2, ht' m hm.1], hm.2, ?_⟩
+      refine ⟨m, hm.1, hres.1, hres.2.symm, hm.2, ?_⟩
       intro k hk hkm
       obtain ⟨m', hm', hle⟩ := h4 k hk hkm
       cases hm'
-      rw [ht' m hm.1] at hle
       exact hle
     · simp only [reduceCtorEq, false_iff]
       intro hall
@@ -1020,17 +1028,27 @@ theorem findMount_longest (path : List Nat) (vis : List MountEnt) (ht : targetsA
       rw [hm.2] at this
       cases this
 
+/-- on a table whose mounts are registered under their own `Target` the relative path is the path
+    below the chosen mount point (what `cmd/risor` and the tests rely on) -/
+theorem findMount_longest_rel (path : List Nat) (vis : List MountEnt) (ht : targetsAreKeys vis = true)
+    (hne : ∀ e ∈ vis, e.key ≠ path) (id : Nat) (rel : List Nat)
+    (h : findMount path vis = some (id, rel)) :
+    ∃ m ∈ vis, m.id = id ∧ rel = relOf path m.key ∧ mountMatches path m.key = true := by
+  obtain ⟨m, hm, hid, hrel, hmm, _⟩ := (findMount_longest path vis hne).1 id rel h
+  have : m.target = m.key := by simpa using List.all_eq_true.1 ht m hm
+  exact ⟨m, hm, hid, by rw [hrel, this], hmm⟩
+
 /-- a mount point that IS the path serves it, whatever else is mounted and in whatever order the
     table is visited -/
 theorem findMount_exact (path : List Nat) (vis : List MountEnt) (hd : MountKeysDistinct vis)
-    (ht : targetsAreKeys vis = true) (e : MountEnt) (he : e ∈ vis) (hk : e.key = path) :
+    (e : MountEnt) (he : e ∈ vis) (hk : e.key = path) :
     findMount path vis = some (e.id, [47]) := by
   obtain ⟨l₁, l₂, rfl⟩ := List.append_of_mem he
   have hperm : (l₁ ++ e :: l₂).Perm (e :: (l₁ ++ l₂)) := List.perm_middle
-  rw [findMount_perm_invariant path hperm hd ht]
+  rw [findMount_perm_invariant path hperm hd]
   unfold findMount selectLoop
   have e1 : selStep (fun e : MountEnt => e.key == path) (fun e => mountMatches path e.key)
-      (fun e => e.key.length) (fun e => e.target.length) (.cand none) e = .done e := by
+      (fun e => e.key.length) (fun e => e.key.length) (.cand none) e = .done e := by
     simp [selStep, hk]
   rw [List.foldl_cons, e1, foldl_selStep_done]
 
@@ -1039,7 +1057,8 @@ def findMountLast_full : Prop :=
   ∀ (path : List Nat) (vis₁ vis₂ : List MountEnt), vis₁.Perm vis₂ → MountKeysDistinct vis₁ →
     targetsAreKeys vis₁ = true → findMountLast path vis₁ = findMountLast path vis₂
 
-/-- … is false: with `/` and `/d` mounted, `/d/f` is served by whichever of the two is visited last -/
+/-- … is false (even on tables registered under their own `Target`): with `/` and `/d` mounted,
+    `/d/f` is served by whichever of the two is visited last -/
 theorem lastSelect_counterexample : ¬ findMountLast_full := by
   intro h
   have := h [47, 100, 47, 102] [⟨[47], [47], 0⟩, ⟨[47, 100], [47, 100], 1⟩]
@@ -1062,27 +1081,67 @@ example : findMount [47, 100, 47, 102] [⟨[47], [47], 0⟩, ⟨[47, 100], [47, 
 /-- a mount point that is a string prefix but not a path prefix does not qualify: `/d` for `/dx/f` -/
 example : findMount [47, 100, 120, 47, 102] [⟨[47, 100], [47, 100], 1⟩] = none := by decide
 
-/-- the full statement without the hypothesis on `Target` … -/
-def findMount_full : Prop :=
-  ∀ (path : List Nat) (vis₁ vis₂ : List MountEnt), vis₁.Perm vis₂ → MountKeysDistinct vis₁ →
-    findMount path vis₁ = findMount path vis₂
+/-! ### the loop before its repair (finding C05-findmount-target-length, fixed) -/
 
-/-- … is false on the code as it is (finding C05-findmount-target-length): the loop compares the
-    length of the visited KEY with the length of the candidate's `Target`; with mounts whose
-    `Target` was left empty every qualifying mount looks longer than the candidate, and the last
-    one visited wins -/
-theorem findMount_counterexample_target : ¬ findMount_full := by
+/-- the full statement for the loop as it was (`len(k) > len(match.Target)`) … -/
+def preFixFindMount_full : Prop :=
+  ∀ (path : List Nat) (vis₁ vis₂ : List MountEnt), vis₁.Perm vis₂ → MountKeysDistinct vis₁ →
+    preFixFindMount path vis₁ = preFixFindMount path vis₂
+
+/-- BEFORE the repair ("fix: choose the longest mount point in findMount by the length of its
+    key"; finding C05-findmount-target-length) the loop compared the length of the visited KEY with
+    the length of the candidate's `Target` FIELD: with `/` and `/d` mounted and both `Target`s left
+    empty (`WithMounts(map[string]*Mount{"/": {Source: a}, "/d": {Source: b}})`), every qualifying
+    mount looked longer than the candidate and the one visited LAST served `/d/f` — mount 1 under
+    one visiting order, mount 0 under the other.  The repaired loop chooses mount 1 (`/d`, the
+    longest mount point) under both, and hands it the same path. -/
+theorem C05_fixed_findmount_target_length :
+    ¬ preFixFindMount_full ∧
+    ∃ (path : List Nat) (vis₁ vis₂ : List MountEnt), vis₁.Perm vis₂ ∧ MountKeysDistinct vis₁ ∧
+      preFixFindMount path vis₁ = some (1, path) ∧ preFixFindMount path vis₂ = some (0, path) ∧
+      findMount path vis₁ = some (1, path) ∧ findMount path vis₂ = some (1, path) := by
+  refine ⟨?_, [47, 100, 47, 102], [⟨[47], [], 0⟩, ⟨[47, 100], [], 1⟩], [⟨[47, 100], [], 1⟩, ⟨[47], [], 0⟩],
+    List.Perm.swap _ _ _, by simp [MountKeysDistinct], by decide, by decide, by decide, by decide⟩
   intro h
   have := h [47, 100, 47, 102] [⟨[47], [], 0⟩, ⟨[47, 100], [], 1⟩]
     [⟨[47, 100], [], 1⟩, ⟨[47], [], 0⟩] (List.Perm.swap _ _ _) (by simp [MountKeysDistinct])
   revert this
   decide
 
-/-- non-vacuity: a nested table (`/`, `/d`, `/d/s`) satisfies the hypotheses -/
-example : MountKeysDistinct [⟨[47], [47], 0⟩, ⟨[47, 100], [47, 100], 1⟩, ⟨[47, 100, 47, 115], [47, 100, 47, 115], 2⟩] ∧
-    targetsAreKeys [⟨[47], [47], 0⟩, ⟨[47, 100], [47, 100], 1⟩, ⟨[47, 100, 47, 115], [47, 100, 47, 115], 2⟩] = true ∧
-    findMount [47, 100, 47, 115, 47, 102] [⟨[47, 100], [47, 100], 1⟩, ⟨[47, 100, 47, 115], [47, 100, 47, 115], 2⟩, ⟨[47], [47], 0⟩]
-      = some (2, [47, 102]) := by
+/-- the repair changes nothing for the tables every caller in the repository builds: where each
+    mount is registered under its own `Target` the loop before the repair chose exactly what the
+    repaired loop chooses — for every path, table size and visiting order -/
+theorem preFixFindMount_eq_on_own_targets (path : List Nat) (vis : List MountEnt)
+    (ht : targetsAreKeys vis = true) : preFixFindMount path vis = findMount path vis := by
+  have ht' : ∀ e ∈ vis, e.target.length = e.key.length := by
+    intro e he
+    have : e.target = e.key := by simpa using List.all_eq_true.1 ht e he
+    rw [this]
+  unfold preFixFindMount findMount selectLoop
+  rw [foldl_selStep_congr _ _ _ (fun e : MountEnt => e.target.length) (fun e => e.key.length) vis
+    (.cand none) (by intro m hm; cases hm) ht']
+
+/-- the other spelling the finding named: `/d` registered with `Target = "/d/"` next to `/d/`
+    (`Target = "/d/"`): before the repair neither looked longer than the other, so the one visited
+    FIRST served `/d/f`; now `/d/` (the longer mount point) serves it under both orders -/
+example : preFixFindMount [47, 100, 47, 102] [⟨[47, 100], [47, 100, 47], 1⟩, ⟨[47, 100, 47], [47, 100, 47], 2⟩] = some (1, [102]) ∧
+    preFixFindMount [47, 100, 47, 102] [⟨[47, 100, 47], [47, 100, 47], 2⟩, ⟨[47, 100], [47, 100, 47], 1⟩] = some (2, [102]) ∧
+    findMount [47, 100, 47, 102] [⟨[47, 100], [47, 100, 47], 1⟩, ⟨[47, 100, 47], [47, 100, 47], 2⟩] = some (2, [102]) ∧
+    findMount [47, 100, 47, 102] [⟨[47, 100, 47], [47, 100, 47], 2⟩, ⟨[47, 100], [47, 100, 47], 1⟩] = some (2, [102]) := by
+  decide
+
+/-- non-vacuity: a nested table (`/`, `/d`, `/d/s`) with `Target`s spelled three different ways
+    (empty, the key, the key with a trailing slash) has distinct keys, and `/d/s/f` is served by
+    `/d/s` under every one of its six visiting orders -/
+example : MountKeysDistinct [⟨[47], [], 0⟩, ⟨[47, 100], [47, 100], 1⟩, ⟨[47, 100, 47, 115], [47, 100, 47, 115, 47], 2⟩] ∧
+    targetsAreKeys [⟨[47], [], 0⟩, ⟨[47, 100], [47, 100], 1⟩, ⟨[47, 100, 47, 115], [47, 100, 47, 115, 47], 2⟩] = false ∧
+    ([[⟨[47], [], 0⟩, ⟨[47, 100], [47, 100], 1⟩, ⟨[47, 100, 47, 115], [47, 100, 47, 115, 47], 2⟩],
+      [⟨[47], [], 0⟩, ⟨[47, 100, 47, 115], [47, 100, 47, 115, 47], 2⟩, ⟨[47, 100], [47, 100], 1⟩],
+      [⟨[47, 100], [47, 100], 1⟩, ⟨[47], [], 0⟩, ⟨[47, 100, 47, 115], [47, 100, 47, 115, 47], 2⟩],
+      [⟨[47, 100], [47, 100], 1⟩, ⟨[47, 100, 47, 115], [47, 100, 47, 115, 47], 2⟩, ⟨[47], [], 0⟩],
+      [⟨[47, 100, 47, 115], [47, 100, 47, 115, 47], 2⟩, ⟨[47], [], 0⟩, ⟨[47, 100], [47, 100], 1⟩],
+      [⟨[47, 100, 47, 115], [47, 100, 47, 115, 47], 2⟩, ⟨[47, 100], [47, 100], 1⟩, ⟨[47], [], 0⟩]].all
+      (fun vis => findMount [47, 100, 47, 115, 47, 102] vis == some (2, [102]))) = true := by
   refine ⟨by simp [MountKeysDistinct], by decide, by decide⟩
 
 /-! ## the hash key of a value is a function of the value alone
